@@ -3,7 +3,7 @@
 
 use crate::corr_chunks::gen_profile;
 use crate::e2e::*;
-use crate::front::{c2pa_chunk, encode_apng, make_iccp};
+use crate::front::{c2pa_chunk, encode_apng_with, make_iccp};
 use crate::gen::*;
 use crate::img::*;
 use crate::pngparse::*;
@@ -289,7 +289,21 @@ pub fn oracle(ctx: &mut Ctx) {
             let nf = rng.below(4) as usize;
             let default_in = rng.bool() || nf == 0;
             let parts = rng.range(1, 3) as usize;
-            encode_apng(&mut rng, &img, nf, default_in, parts)
+            // animated files carry metadata too (placed where the specification allows it)
+            let mut pre: Vec<([u8; 4], Vec<u8>)> = vec![];
+            if rng.chance(1, 3) {
+                pre.push((*b"bKGD", match img.ct { 3 => vec![0], 0 | 4 => vec![0, 1], _ => vec![0, 1, 0, 2, 0, 3] }));
+            }
+            if img.ct == 3 && rng.chance(1, 3) {
+                pre.push((*b"hIST", vec![0; 2 * img.palette.len()]));
+            }
+            if rng.chance(1, 3) {
+                pre.push((*b"pHYs", vec![0, 0, 0x0b, 0x13, 0, 0, 0x0b, 0x13, 1]));
+            }
+            if rng.chance(1, 4) {
+                pre.push((*b"tEXt", b"Software\0x".to_vec()));
+            }
+            encode_apng_with(&mut rng, &img, nf, default_in, parts, &pre)
         } else {
             img.encode_png(&mut rng, &enc)
         };
